@@ -417,6 +417,40 @@ func c12InstanceStep(c *Ctx) {
 			}
 		case MatchCC(&cl.Call, sOnce):
 			c.Bad("O12.5", k+":once-argument", cl.Pos(), "NewOnce must be given `from` (first) or `step` (per step)")
+		default:
+			// the pause spelt out: a schedule without tokens that lasts stepDuration - NewDoAtSchedule(stepDuration, 0, _),
+			// here or as the only thing a helper of the package returns (newPause(stepDuration))
+			isPauseCall := func(pc *ssa.Call, d ssa.Value) bool {
+				if !MatchCC(&pc.Call, Spec{"./core/schedule", "", "NewDoAtSchedule"}) || len(pc.Call.Args) < 2 {
+					return false
+				}
+				z, isC := ConstInt(pc.Call.Args[1])
+				return isC && z == 0 && pc.Call.Args[0] == d
+			}
+			if isPauseCall(cl, dur) {
+				constPause = cl
+				return
+			}
+			if sc := cl.Call.StaticCallee(); sc != nil && len(sc.Blocks) > 0 && PkgOf(sc) == PkgOf(fn) && !MatchCC(&cl.Call, Spec{"./core/schedule", "", "NewCompositeConf"}, Spec{"./core/schedule", "", "NewComposite"}) {
+				for i, a := range cl.Call.Args {
+					if a != dur || i >= len(sc.Params) {
+						continue
+					}
+					all, n := true, 0
+					for _, b := range sc.Blocks {
+						if r, isR := b.Instrs[len(b.Instrs)-1].(*ssa.Return); isR && len(r.Results) == 1 {
+							n++
+							pc, _ := CallOfValue(r.Results[0])
+							if pc == nil || !isPauseCall(pc, ssa.Value(sc.Params[i])) {
+								all = false
+							}
+						}
+					}
+					if all && n > 0 {
+						constPause = cl
+					}
+				}
+			}
 		}
 	})
 	if onceFrom == nil || onceStep == nil || constPause == nil {
